@@ -28,6 +28,10 @@ struct ZoneModel {
     /// (address, allocation serial) of the reference-counted block the
     /// handles point into, when known.
     arc_block: Option<(usize, u64)>,
+    /// Somebody outside the program (jiff's system-zone cache) keeps a handle
+    /// of its own for as long as it likes: only the program's handles are
+    /// counted, and the zone staying allocated is not a leak.
+    pinned: bool,
 }
 
 struct Run {
@@ -75,6 +79,8 @@ struct Run {
     db_blocks: HashMap<(usize, u64), u32>,
     db_mtime: u64,
     db_gets: u64,
+    /// `Spec::System` handles that were the stand-in zone (no unnamed system zone available).
+    system_standins: u64,
     db_paths: [u64; 11],
     /// Name -> instance the *global* database (`jiff::tz::db()`) caches.
     gdb_cached: HashMap<u8, u32>,
@@ -290,6 +296,7 @@ impl NativeEnv {
                 footprint: fp,
                 reference,
                 arc_block: None,
+                pinned: matches!(spec, Spec::System),
             })
         });
         if !spec.heap() && fp != 0 {
@@ -298,7 +305,8 @@ impl NativeEnv {
                 format!("creating {spec:?} left {} allocation(s) live", fp),
             );
         }
-        if spec.heap() && fp == 0 {
+        // (A system zone created by an earlier run is still in jiff's cache.)
+        if spec.heap() && fp == 0 && !matches!(spec, Spec::System) {
             violate(
                 "harness_model",
                 format!("creating {spec:?} allocated nothing"),
@@ -324,9 +332,13 @@ impl NativeEnv {
                 let fresh = alloc::record_peek_live();
                 if fresh == 0 {
                     alloc::record_discard();
-                    let (handles, spec0) =
-                        with_run(|r| (r.zones[z0 as usize].handles, r.zones[z0 as usize].spec.clone()));
-                    if handles <= 0 {
+                    let (handles, spec0, pinned) = with_run(|r| {
+                        let z = &r.zones[z0 as usize];
+                        (z.handles, z.spec.clone(), z.pinned)
+                    });
+                    // (A pinned zone is kept alive by its outside holder
+                    // even when the program holds no handle.)
+                    if handles <= 0 && !pinned {
                         violate(
                             "use_after_free",
                             format!(
@@ -356,6 +368,9 @@ impl Env for NativeEnv {
     }
 
     fn post_new(&mut self, spec: &Spec, tz: &TimeZone) -> u32 {
+        if matches!(spec, Spec::System) && tz.iana_name().is_some() {
+            with_run(|r| r.system_standins += 1);
+        }
         // Nothing may allocate before the recording window is closed.
         let z = self.register(spec, tz, false);
         with_run(|r| *r.kind_counts.entry(spec.kind_name()).or_default() += 1);
@@ -559,6 +574,7 @@ impl Env for NativeEnv {
                         footprint: 1,
                         reference: false,
                         arc_block: Some((addr, serial)),
+                        pinned: false,
                     });
                     (r.zones.len() - 1) as u32
                 });
@@ -691,11 +707,31 @@ fn db_lookup(db: &TimeZoneDatabase, q: &str, how: u8) -> Result<TimeZone, String
     }
 }
 
+/// Points `TZ` at a TZif file outside any `zoneinfo/` directory (once per
+/// process, before jiff's system-zone detection first runs), so that
+/// `TimeZone::system()` is an unnamed heap TZif zone; also fixes `TZDIR`,
+/// because detecting the system zone initialises the global database.
+fn system_zone_setup(per_run_dir: &std::path::Path) {
+    static DONE: std::sync::Once = std::sync::Once::new();
+    DONE.call_once(|| {
+        let dir = per_run_dir.with_file_name("c20sys");
+        let _ = std::fs::create_dir_all(&dir);
+        let (rule, so, sa, d_o, da) = FOOTERS[1];
+        let file = dir.join("localzone");
+        let _ = std::fs::write(&file, crate::zonegen::synth_tzif_footer(rule, so, sa, d_o, da));
+        if let Err(e) = global_db_files(per_run_dir) {
+            eprintln!("[jiffsim] global database setup: {e}");
+        }
+        // Only this thread exists in the process at this point.
+        std::env::set_var("TZ", &file);
+    });
+}
+
 /// The directory the process-global database reads (set up once per worker
 /// process, before jiff's global database is first touched).
 static GLOBAL_DB_DIR: std::sync::OnceLock<std::path::PathBuf> = std::sync::OnceLock::new();
 
-fn global_db_setup(per_run_dir: &std::path::Path) -> Result<(), String> {
+fn global_db_files(per_run_dir: &std::path::Path) -> Result<(), String> {
     if GLOBAL_DB_DIR.get().is_none() {
         let dir = per_run_dir.with_file_name("c20gdb");
         let _ = std::fs::remove_dir_all(&dir);
@@ -713,6 +749,11 @@ fn global_db_setup(per_run_dir: &std::path::Path) -> Result<(), String> {
             return Err("the global database does not read the private TZDIR".into());
         }
     }
+    Ok(())
+}
+
+fn global_db_setup(per_run_dir: &std::path::Path) -> Result<(), String> {
+    global_db_files(per_run_dir)?;
     // Every run starts with the same files and an empty global cache.
     let dir = GLOBAL_DB_DIR.get().unwrap();
     for (i, name) in DB_NAMES.iter().enumerate() {
@@ -782,7 +823,7 @@ fn check_memory_impl(after: &str, full: bool) {
             } else {
                 with_run(|r| r.interior_reallocs += 1);
             }
-        } else if handles == 0 && live > 0 {
+        } else if handles == 0 && live > 0 && !with_run(|r| r.zones[z].pinned) {
             violate(
                 "leak",
                 format!(
@@ -898,6 +939,7 @@ fn run_case(
     want_log: bool,
     db_dir: std::path::PathBuf,
 ) -> SchedOutcome {
+    system_zone_setup(&db_dir);
     alloc::reset_watches();
     alloc::set_poison(case.poison_freed_memory);
     {
@@ -940,6 +982,7 @@ fn run_case(
             db_blocks: HashMap::new(),
             db_mtime: 0,
             db_gets: 0,
+            system_standins: 0,
             db_paths: [0; 11],
             gdb_cached: HashMap::new(),
         });
@@ -1151,6 +1194,11 @@ pub fn warm_up() {
     let mut r = Rng::new(1);
     for _ in 0..64 {
         let s = fresh_spec(&mut r);
+        // The system zone needs the environment `run_case` sets up (and
+        // touching it here would initialise jiff's global database early).
+        if matches!(s, Spec::System) {
+            continue;
+        }
         let tz = interp::make_tz(&s);
         for q in 0..N_QUERIES {
             let _ = interp::answer(&tz, q, 3);
@@ -1238,6 +1286,7 @@ impl Prop for C20 {
             stats.add("oracle.answers_checked_against_golden_table", run.answers_golden);
             stats.add("oracle.eq_checked", run.eq_checked);
             stats.add("database.lookups", run.db_gets);
+            stats.add("zones.system_zone_was_a_named_standin", run.system_standins);
             stats.add("database.lookups_via.get", run.db_paths[0] + run.db_paths[1]);
             stats.add("database.lookups_via.parse_time_zone_with", run.db_paths[2]);
             stats.add("database.lookups_via.parse_zoned_with", run.db_paths[3]);
@@ -1347,5 +1396,5 @@ fn kind_key(k: &str) -> &'static str {
     macro_rules! m {
         ($($n:literal),*) => { match k { $($n => concat!("zones.created.", $n),)* _ => "zones.created.other" } };
     }
-    m!("utc", "unknown", "fixed", "posix", "tzif_real", "tzif_synth", "tzif_named", "tzif_bundled", "from_database", "static")
+    m!("utc", "unknown", "fixed", "posix", "tzif_real", "tzif_synth", "tzif_named", "tzif_footer_rule", "system_unnamed_tzif", "tzif_bundled", "from_database", "static")
 }
